@@ -9,6 +9,10 @@
 (*   5 recv(n, total)        writer goroutine, after receiving a batch         *)
 (*   6 done(n, total)        writer goroutine, batch consumed (collector only) *)
 (*   7 exit(total)           writer goroutine, channel closed and drained      *)
+(*   8 err(stored)           writer goroutine, the sink reported an error      *)
+(*                           (fault-injection runs, Kind = "drain": the        *)
+(*                           repaired writeSTL keeps receiving, without hooks, *)
+(*                           so receives after a failure are silent steps)     *)
 (* Unlogged steps (create, producer finished, item-by-item consumption, close  *)
 (* of the channel, return) are silent steps TLC infers.  The producer's unlock *)
 (* and the writer's recv of the same batch race for the log, so an unlock seen *)
@@ -34,7 +38,8 @@ EvUnlock == /\ Has /\ Ev[1] = 3
             /\ \/ /\ lock = 0 /\ bufLen = Ev[2] /\ UNCHANGED vars /\ UNCHANGED early
                \/ /\ lock # 0 /\ offer = <<>> /\ SendDoneAny /\ bufLen' = Ev[2] /\ UNCHANGED early
                \/ /\ lock # 0 /\ offer # <<>> /\ cur = <<>> /\ ~early
-                  /\ RecvAndSendDone /\ bufLen' = Ev[2] /\ early' = TRUE
+                  /\ RecvAndSendDone /\ bufLen' = Ev[2]
+                  /\ early' = ~failed     \* a failed (draining) writer logs no further receives
             /\ Step
 EvClose == /\ Has /\ Ev[1] = 4 /\ bufLen = Ev[2] /\ CloseBuffer /\ Step /\ UNCHANGED early
 EvRecv == /\ Has /\ Ev[1] = 5
@@ -43,10 +48,13 @@ EvRecv == /\ Has /\ Ev[1] = 5
           /\ (Trace[l].sink = "mem" => delivered = Ev[3])
           /\ Step
 EvDone == /\ Has /\ Ev[1] = 6 /\ ~early /\ BatchDone /\ delivered = Ev[3] /\ Step /\ UNCHANGED early
+EvErr == /\ Has /\ Ev[1] = 8 /\ ~early /\ ~failed /\ delivered = Ev[2]
+         /\ Consume /\ failed' /\ Step /\ UNCHANGED early
 EvExit == /\ Has /\ Ev[1] = 7 /\ ~early /\ EndOfStream /\ delivered = Ev[3] /\ Step /\ UNCHANGED early
 Silent == /\ l <= Len(Trace)
           /\ \/ CreateOK \/ (\E p \in Producers : Finish(p)) \/ Consume \/ CloseChannel \/ Finalise \/ Return
              \/ (Trace[l].sink # "mem" /\ BatchDone)
+             \/ (failed /\ (Recv \/ BatchDone \/ EndOfStream))
           /\ UNCHANGED <<l, k, early>>
 \* all events of the line consumed and the caller has returned: next line
 Reset == /\ l <= Len(Trace) /\ k = Len(Events) + 1 /\ pc = "returned" /\ ~early
@@ -56,7 +64,7 @@ Reset == /\ l <= Len(Trace) /\ k = Len(Events) + 1 /\ pc = "returned" /\ ~early
          /\ lock' = 0 /\ bufLo' = 0 /\ bufLen' = 0 /\ bufId' = 1 /\ nextId' = 2
          /\ offer' = <<>> /\ cur' = <<>> /\ delivered' = 0 /\ written' = 0
          /\ wpc' = "none" /\ failed' = FALSE /\ chClosed' = FALSE /\ hist' = <<>>
-TraceNext == EvWrite \/ EvSend \/ EvUnlock \/ EvClose \/ EvRecv \/ EvDone \/ EvExit \/ Silent \/ Reset
+TraceNext == EvWrite \/ EvSend \/ EvUnlock \/ EvClose \/ EvRecv \/ EvDone \/ EvErr \/ EvExit \/ Silent \/ Reset
 TraceSpec == TraceInit /\ [][TraceNext]_tvars
 tview == <<pc, ppc, lock, bufLo, bufLen, bufId, offer, cur, delivered, written, wpc, failed, chClosed, l, k, early>>
 HighWater == PrintT(<<"HW", TLCGet(1)>>)
